@@ -60,6 +60,17 @@ theorem endpoint_before_unready_pod_example :
     viewCold [.svc svcA, .pod (pod "p1" "10.0.0.1" false [("app", "a")] "sa1" ""), .slice (sliceOf "a-s1" [ep "10.0.0.1" false false "p1"])] := by
   decide +kernel
 
+/-- the side conditions of `convergence_to_derive` hold for this history, and `derive` gives literally
+    the view of the ordered run -/
+example : WF (run {} [.slice s1, .pod p1, .svc svcA]).c ∧ NoCachedAddr (run {} [.slice s1, .pod p1, .svc svcA]).c ∧
+    NoPodAtUntargeted (run {} [.slice s1, .pod p1, .svc svcA]).c ∧ DistinctEps (run {} [.slice s1, .pod p1, .svc svcA]).c host svcA := by
+  decide +kernel
+
+theorem derive_example :
+    derive (run {} [.slice s1, .pod p1, .svc svcA]).c host = viewAfter [.slice s1, .pod p1, .svc svcA] ∧
+    derive (run {} [.slice s1, .pod p1, .svc svcA]).c host = viewCold [.svc svcA, .pod p1, .slice s1] := by
+  decide +kernel
+
 theorem pod_before_service_example :
     viewAfter [.pod p1, .slice s1, .svc svcA] = viewAfter [.svc svcA, .pod p1, .slice s1] := by
   decide +kernel
